@@ -34,6 +34,7 @@ CONSTANTS MaxBlocks,      \* 1..3
           Retargets,      \* BOOLEAN subset: also retarget_symbol_uses(target symbol -> another block's symbol)
           AlignOpts,      \* subset of {0, 4, 16}: alignment aux data on the first block (0 = none)
           Aliases,        \* BOOLEAN subset: the first two blocks carry a second start symbol (an alias)
+          SharedRet,      \* BOOLEAN subset: returns without a known site share ONE proxy ("unknown caller")
           InsFns,         \* subset of {"none", "ret", "loop"}: register_insert_function("newfn", ..)
           Emit            \* BOOLEAN: print cases
 
@@ -140,7 +141,7 @@ MkBlock(i, nb, tpl, tgtIdx, layout, endSym, annMode, annAt, cl0, noSym, al, ld, 
 
 ShapeParams ==
   {p \in [nb : 1..MaxBlocks, tpl : [1..MaxBlocks -> Templates], tgt : 1..MaxBlocks,
-          layout : FnLayouts, es : SUBSET (1..MaxBlocks), ns : SUBSET (1..MaxBlocks), am : AnnModes, cl : CfiLayouts, al : AlignOpts, xd : ExtraData, dft : DropFnTables, ld : Leads, fmt : Fmts, als : Aliases,
+          layout : FnLayouts, es : SUBSET (1..MaxBlocks), ns : SUBSET (1..MaxBlocks), am : AnnModes, cl : CfiLayouts, al : AlignOpts, xd : ExtraData, dft : DropFnTables, ld : Leads, fmt : Fmts, als : Aliases, sr : SharedRet,
           annAt : (1..MaxBlocks) \X (0..3)] :
      /\ \A i \in (p.nb + 1)..MaxBlocks : p.tpl[i] = CHOOSE x \in Templates : TRUE
      /\ p.tgt <= p.nb
@@ -163,6 +164,8 @@ ShapeParams ==
      /\ (p.layout \in {"one", "split", "one2"} => ~IsData(p.tpl[1]))
      /\ (p.layout = "one2" => p.nb >= 2 /\ ~IsData(p.tpl[p.nb]))
      /\ (p.cl \in {"proc_all", "proc_rs"} => ~IsData(p.tpl[1]) /\ ~IsData(p.tpl[p.nb]))
+     \* (sharing needs two returns)
+     /\ (p.sr => Cardinality({i \in 1..p.nb : p.tpl[i] \in {"ret", "ret1"}}) >= 2)
      /\ (p.cl = "proc_split" => p.nb >= 2 /\ \A i \in 1..p.nb : ~IsData(p.tpl[i]))
      /\ (p.cl \in {"proc_each", "proc_first"} => \E i \in 1..p.nb : ~IsData(p.tpl[i]))
      /\ (p.cl = "proc_rs" /\ p.nb >= 2 => ~IsData(p.tpl[2]))}
@@ -173,7 +176,7 @@ DataSection(tgtIdx) ==
                  syms |-> <<"dd">>, esyms |-> <<>>, fn |-> "", entry |-> FALSE,
                  ann |-> << <<1, "comments", "bi", "dc">> >>, cfi |-> <<>>, align |-> 0, lead |-> 0]>>]
 MkShape(p) ==
-  [isa |-> Isa, fmt |-> p.fmt, drop_fn_tables |-> p.dft,
+  [isa |-> Isa, fmt |-> p.fmt, drop_fn_tables |-> p.dft, shared_ret |-> p.sr,
    seh |-> IF p.fmt = "pe" THEN SetToSeq({i \in {1, p.nb} : ~IsData(p.tpl[i])}) ELSE <<>>,
    sections |-> <<[name |-> ".text",
                    blocks |-> [i \in 1..p.nb |->
